@@ -742,7 +742,7 @@ func (x *Exec) oblige(kind, label string, goal Term, pos token.Pos, text string)
 		return nil
 	}
 	// large conjunctive goals are split into one obligation per conjunct (assert-then-assume in order)
-	if len(goal) > 3000 && kind != "cover" {
+	if len(goal) > 1000 && kind != "cover" {
 		if parts := splitGoal(goal); len(parts) > 1 {
 			var last *Obligation
 			for i, p := range parts {
@@ -857,10 +857,29 @@ func (x *Exec) postsAtReturn(fr *Frame, r *ssa.Return, rets []Val, st *State, re
 		d := x.tr(fc.Def, x.entryEnv)
 		x.oblige("post", "def", implies(reach, eq(rets[0].S, d.S)), pos, "result == "+fc.Def.cstr())
 	}
+	suffix := ""
+	if nret := countReturns(fn); nret > 1 {
+		suffix = fmt.Sprintf("@r%d", returnOrdinal(fn, r))
+	}
 	for i, en := range fc.Ensures {
 		t := x.trBool(en.Expr, penv)
-		x.oblige("post", labelOr(en.Label, i), implies(reach, t), pos, en.Text)
+		x.oblige("post", labelOr(en.Label, i)+suffix, implies(reach, t), pos, en.Text)
 	}
+}
+
+func countReturns(fn *ssa.Function) int {
+	n := 0
+	for _, b := range fn.Blocks {
+		if b == fn.Recover {
+			continue
+		}
+		for _, in := range b.Instrs {
+			if _, ok := in.(*ssa.Return); ok {
+				n++
+			}
+		}
+	}
+	return n
 }
 
 // sexprChildren splits "(op a b c)" into op and its argument terms.
